@@ -33,11 +33,13 @@ GROUPS = {
 
 def py_apply(hist) -> Tuple[Dict[str, int], Dict[str, Any]]:
     regs = Registers()
+    CPURegistersSnapshot.from_registers(regs)
     for tgt, v in hist:
         if tgt.startswith("flag:"):
             regs.set_flag(tgt[5:], v)
         else:
             regs.set(RegisterName[tgt], v)
+        CPURegistersSnapshot.from_registers(regs)      # a snapshot is also taken in every state on the way (same register file)
     reads = {n: regs.get(RegisterName[n]) for n in NAMES}
     reads_flag = {"C": regs.get_flag("C"), "Z": regs.get_flag("Z")}
     snap = CPURegistersSnapshot.from_registers(regs)
